@@ -25,7 +25,7 @@ from common import coq_list, coq_z
 
 TAG = "C16_%d" % os.getpid()    # scratch-file prefix in coq/build, unique per process
 THEOREMS = ["C16_refines", "C16_no_lost_update", "C16_fresh_commit_visible", "C16_safe_delete",
-            "C16_safe_delete_gone", "C16_lookup_live", "C16_lookup_missing", "C16_membership", "C16_len", "C16_fault_total",
+            "C16_child_calls", "C16_safe_delete_gone", "C16_lookup_live", "C16_lookup_missing", "C16_membership", "C16_len", "C16_fault_total",
             "C16_unquote_quote", "C16_quote_inj", "C16_unquote_transform", "C16_transform_inj",
             "C16_doc_url_inj", "C16_key_agreement", "C16_routing", "C16_reserved_id_refuted", "C16_second_replica_refuted", "C16_example"]
 
@@ -78,13 +78,54 @@ def env():
     return _ENV
 
 
-def make_object(ident, val, kind):
+PARTS = ("pa", "pb")
+
+
+def make_object(ident, a, b, kind):
+    """an Identifiable with two independently changeable parts (a, b): a Submodel carries them in two nested
+    Properties, the other kinds in id_short / category"""
     from basyx.aas import model
-    if kind == 0:
-        return model.AssetAdministrationShell(model.AssetInformation(global_asset_id="urn:g"), ident, id_short=f"v{val}")
     if kind == 1:
-        return model.Submodel(ident, id_short=f"v{val}")
-    return model.ConceptDescription(ident, id_short=f"v{val}")
+        return model.Submodel(ident, id_short="s", submodel_element=[
+            model.Property(PARTS[0], model.datatypes.Int, a), model.Property(PARTS[1], model.datatypes.Int, b)])
+    if kind == 0:
+        return model.AssetAdministrationShell(model.AssetInformation(global_asset_id="urn:g"), ident,
+                                              id_short=f"v{a}", category=f"c{b}")
+    return model.ConceptDescription(ident, id_short=f"v{a}", category=f"c{b}")
+
+
+def total(a, b):
+    """the payload token of the model stands for all parts of the object"""
+    return a * 1000 + b
+
+
+def parts_of(o):
+    from basyx.aas import model
+    if isinstance(o, model.Submodel):
+        return int(o.get_referable(PARTS[0]).value), int(o.get_referable(PARTS[1]).value)
+    return int(o.id_short[1:]), int(o.category[1:])
+
+
+def set_part(o, part, v):
+    from basyx.aas import model
+    if isinstance(o, model.Submodel):
+        o.get_referable(PARTS[part]).value = v
+    elif part == 0:
+        o.id_short = f"v{v}"
+    else:
+        o.category = f"c{v}"
+
+
+def json_parts(data):
+    """(a, b) of a stored document's `data` member"""
+    if data.get("modelType") == "Submodel":
+        vals = {e["idShort"]: int(e["value"]) for e in data.get("submodelElements", [])}
+        return vals[PARTS[0]], vals[PARTS[1]]
+    return int(data["idShort"][1:]), int(data["category"][1:])
+
+
+def json_val(data):
+    return total(*json_parts(data))
 
 
 def gen_of(rev):
@@ -94,6 +135,7 @@ def gen_of(rev):
 def run_sdk(case):
     """Runs the case against the fake.  Returns (trace, first oracle failure or None);
     failure = (step index, op kind, code, message)."""
+    from basyx.aas import model
     from basyx.aas.backend import couchdb
     from basyx.aas.adapter.json import json_serialization
     E = env()
@@ -106,8 +148,8 @@ def run_sdk(case):
     pool = case["pool"]
     kind_of = {}
     for ident, val in pool:
-        kind_of.setdefault(ident, len(kind_of) % 3)
-    objs = [make_object(i, v, kind_of[i]) for i, v in pool]      # all objects ever seen, by token; kept alive
+        kind_of.setdefault(ident, (len(kind_of) + 1) % 3)        # Submodel, ConceptDescription, AAS, ...
+    objs = [make_object(i, v, 0, kind_of[i]) for i, v in pool]      # all objects ever seen, by token; kept alive
     tok = {id(o): t for t, o in enumerate(objs)}
     ids = [p[0] for p in pool]
     ref = {}                                                     # the oracle's map: id -> payload on the server
@@ -115,6 +157,7 @@ def run_sdk(case):
     #                  server (successful add / lookup returning it / update() / commit / iteration returning it)
     writer = {}      # id -> who wrote the document's current generation: "ext" (second actor) | "client"
     attached = {}    # object token -> it is a replica of a stored document (added / fetched, not discarded since)
+    dirty = {}       # object token -> parts changed locally since the object was last synchronised
     documented = (KeyError, couchdb.CouchDBConnectionError, couchdb.CouchDBResponseError,
                   couchdb.CouchDBServerError, couchdb.CouchDBConflictError)
     fails = []
@@ -137,7 +180,7 @@ def run_sdk(case):
         return tok[id(o)]
 
     def val_of(o):
-        return int(o.id_short[1:])
+        return total(*parts_of(o))
 
     def enc_exc(e):
         if isinstance(e, KeyError):
@@ -168,7 +211,7 @@ def run_sdk(case):
         rows = []
         for i in ids:
             d = snap.get(i)
-            row = [20, d[0], 0 if d[1] else 1, 0 if d[1] else int(d[2]["data"]["idShort"][1:])] if d else [20, 0, 0, 0]
+            row = [20, d[0], 0 if d[1] else 1, 0 if d[1] else json_val(d[2]["data"])] if d else [20, 0, 0, 0]
             r = couchdb.get_couchdb_revision(url_of(i))
             rows.append(row + [gen_of(r) if r else -1])
         for o in objs:
@@ -189,12 +232,15 @@ def run_sdk(case):
                 st, doc = E.raw("GET", docpath(op[1]))
                 rev = doc["_rev"] if st == 200 else None
                 if kind == "extput":
-                    body = {"data": make_object(op[1], op[2], kind_of.get(op[1], 1))}
+                    # the second actor changes ONE part of the document (creates it if missing)
+                    ab = list(json_parts(doc["data"])) if st == 200 else [0, 0]
+                    ab[op[3] if len(op) > 3 else 0] = op[2]
+                    body = {"data": make_object(op[1], ab[0], ab[1], kind_of.get(op[1], 1))}
                     if rev:
                         body["_rev"] = rev
                     st2, _ = E.raw("PUT", docpath(op[1]), json.dumps(body, cls=json_serialization.AASToJsonEncoder))
                     assert st2 == 201, st2
-                    ref[op[1]] = op[2]
+                    ref[op[1]] = total(*ab)
                     writer[op[1]] = "ext"
                 elif rev:
                     st2, _ = E.raw("DELETE", docpath(op[1]) + "?rev=" + rev)
@@ -203,7 +249,7 @@ def run_sdk(case):
                     writer[op[1]] = "ext"
                 out = [0]
             else:
-                if kind in ("add", "modify", "commit", "update", "discard", "cobj"):
+                if kind in ("add", "modify", "commit", "update", "discard", "cobj", "updatec", "commitc"):
                     if op[1] >= len(objs):      # an object that does not exist (yet): no call is made
                         trace.append([[6, 9, -1, 0]] + state_rows(snap0))
                         continue
@@ -224,7 +270,15 @@ def run_sdk(case):
                         result = store.get_identifiable(op[1])
                         out = [1, token(result)]
                     elif kind == "modify":
-                        x.id_short = f"v{op[2]}"
+                        set_part(x, op[3] if len(op) > 3 else 0, op[2])
+                        out = [0]
+                    elif kind in ("updatec", "commitc"):
+                        # update() / commit() called on an element nested in the Identifiable (if it has one)
+                        target = x.get_referable(PARTS[op[2]]) if isinstance(x, model.Submodel) else x
+                        if kind == "updatec":
+                            target.update()
+                        else:
+                            target.commit()
                         out = [0]
                     elif kind == "commit":
                         x.commit()
@@ -260,6 +314,7 @@ def run_sdk(case):
             trace.append([[98]])
             continue
         snap1 = fake.snapshot(db)
+        okind = {"updatec": "update", "commitc": "commit"}.get(kind, kind)    # same calls towards the backend
         # ---------------- oracle
         if kind not in ("extput", "extdel"):
             if exc is not None and not isinstance(exc, documented):
@@ -299,7 +354,7 @@ def run_sdk(case):
                         expect(KeyError, "the identifier is not stored")
                 elif kind == "modify":
                     expect(None, "local change")
-                elif kind == "commit":
+                elif okind == "commit":
                     if pre["source"] == "":
                         expect(None, "object without source: nothing to do")
                     else:
@@ -318,18 +373,31 @@ def run_sdk(case):
                         elif fresh:
                             expect(None, "the replica's revision is the server's current one")
                             if exc is None:
+                                # no lost update, part by part: a part the client has not touched since its last
+                                # synchronisation must not overwrite what the second actor wrote there
+                                before = divmod(ref[x.id], 1000)
+                                mine = parts_of(x)
+                                lost = [p for p in (0, 1) if p not in dirty.get(tok[id(x)], set()) and mine[p] != before[p]]
+                                if lost and writer.get(x.id) == "ext":
+                                    bad(k, kind, "lost-update-of-untouched-part" + multi(x, pre),
+                                        "an accepted commit overwrote a part of the document that the second actor had "
+                                        "changed and this client had neither changed nor refreshed (stale part of the "
+                                        "replica carried over a current revision)")
                                 ref[x.id] = pre["val"]
                         else:
                             expect(couchdb.CouchDBConflictError, "the replica's revision is not the server's current one")
                             if snap1 != snap0:
                                 bad(k, kind, "lost-update", "a commit from a stale replica changed the server document")
-                elif kind == "update":
+                elif okind == "update":
                     if pre["source"] == "":
                         expect(None, "object without source: nothing to do")
                     elif x.id in ref:
                         expect(None, "the document exists")
-                        if exc is None and val_of(x) != ref[x.id]:
+                        if exc is None and kind == "update" and val_of(x) != ref[x.id]:
                             bad(k, kind, "stale-or-wrong-object", "update() did not deliver the stored document")
+                        if exc is None and kind == "updatec" and parts_of(x)[op[2]] != divmod(ref[x.id], 1000)[op[2]]:
+                            bad(k, kind, "stale-or-wrong-object", "update() of a nested element did not deliver the "
+                                "stored state of that element")
                     else:
                         expect(KeyError, "the document does not exist")
                 elif kind == "discard":
@@ -377,8 +445,8 @@ def run_sdk(case):
                             bad(k, kind, "iteration", "iteration does not yield each stored document exactly once")
             # after a successful add / lookup / update() / commit the replica is up to date: the revision
             # recorded for its document is the server's current one
-            if exc is None and not hit and kind in ("add", "get", "update", "commit"):
-                o = result if kind == "get" else x
+            if exc is None and not hit and okind in ("add", "get", "update", "commit"):
+                o = result if okind == "get" else x
                 d = snap1.get(o.id)
                 r = couchdb.get_couchdb_revision(url_of(o.id))
                 if o.source != "" and d and not d[1] and (r is None or gen_of(r) != d[0]):
@@ -391,7 +459,21 @@ def run_sdk(case):
                 d = snap1.get(ident)
                 return d[0] if d else 0
             if exc is None and not hit:
-                if kind in ("add", "update", "commit") and x.source != "":
+                if kind == "modify":
+                    dirty.setdefault(tok[id(x)], set()).add(op[3] if len(op) > 3 else 0)
+                if kind in ("add", "update", "commit", "commitc") and x.source != "":
+                    dirty[tok[id(x)]] = set()
+                if kind == "updatec" and x.source != "" and x.id in ref:
+                    # the requested part is refreshed; another part counts as refreshed if it now shows the server's state
+                    sv = divmod(ref[x.id], 1000)
+                    dirty[tok[id(x)]] = {p for p in dirty.get(tok[id(x)], set())
+                                         if p != op[2] and parts_of(x)[p] != sv[p]}
+                if kind == "get":
+                    dirty[tok[id(result)]] = set()
+                if kind == "iter":
+                    for o in result:
+                        dirty[tok[id(o)]] = set()
+                if okind in ("add", "update", "commit") and x.source != "":
                     synced[tok[id(x)]] = gen_now(x.id)
                 if kind == "get":
                     synced[tok[id(result)]] = gen_now(result.id)
@@ -400,7 +482,7 @@ def run_sdk(case):
                     for o in result:
                         synced[tok[id(o)]] = gen_now(o.id)
                         attached[tok[id(o)]] = True
-                if kind in ("add", "commit", "discard") and snap1 != snap0:
+                if okind in ("add", "commit", "discard") and snap1 != snap0:
                     writer[x.id] = "client"
                 if kind == "add":
                     attached[tok[id(x)]] = True
@@ -413,6 +495,7 @@ def run_sdk(case):
                         for o in objs:
                             if o.id == i and o.source != "":
                                 synced[tok[id(o)]] = gen_of(revs1[i])
+                                dirty[tok[id(o)]] = set()
             # ---- a failed call leaves the client's view alone: sources, payloads, recorded revisions
             if exc is not None:
                 now = [(o.source, val_of(o)) for o in objs[:len(objs0)]]
@@ -428,7 +511,7 @@ def run_sdk(case):
                     bad(k, kind, "attachment-lost" if a else "attachment-left",
                         "an object that was added/fetched and not discarded has lost its source (its commit() would "
                         "silently do nothing)" if a else "a discarded object still has a source")
-        live = {i: int(d[2]["data"]["idShort"][1:]) for i, d in snap1.items() if not d[1]}
+        live = {i: json_val(d[2]["data"]) for i, d in snap1.items() if not d[1]}
         if live != ref:
             bad(k, kind, "server-differs-from-map", "the server's documents differ from the reference map "
                 "(phantom or lost document)")
@@ -460,7 +543,7 @@ def probe_reserved():
 
 # ------------------------------------------------------------------ case generation
 
-REQ_COUNT = {"add": 1, "get": 1, "commit": 1, "update": 1, "discard": 2, "cid": 1, "cobj": 1, "len": 1, "iter": 4}
+REQ_COUNT = {"add": 1, "get": 1, "commit": 1, "update": 1, "updatec": 1, "commitc": 1, "discard": 2, "cid": 1, "cobj": 1, "len": 1, "iter": 4}
 
 
 def gen_case(rng, maxlen):
@@ -479,7 +562,7 @@ def gen_case(rng, maxlen):
     pfault = rng.choice([0, 0, .15, .4])
     for _ in range(L):
         kind = rng.choices(["add", "get", "modify", "commit", "update", "discard", "cid", "cobj", "len", "iter",
-                            "extput", "extdel"], [18, 12, 10, 16, 8, 10, 3, 2, 3, 5, 9, 5])[0]
+                            "extput", "extdel", "updatec", "commitc"], [18, 12, 11, 12, 6, 10, 3, 2, 3, 5, 10, 5, 5, 5])[0]
         x = rng.randrange(ncell)
         if kind in ("get", "iter"):
             ncell += 1 if kind == "get" else 2
@@ -487,14 +570,16 @@ def gen_case(rng, maxlen):
             op = [kind, x]
         elif kind == "modify":
             nextval += 1
-            op = [kind, x, nextval]
+            op = [kind, x, nextval, rng.randrange(2)]         # one of the object's two parts
+        elif kind in ("updatec", "commitc"):
+            op = [kind, x, rng.randrange(2)]                  # through the nested element carrying that part
         elif kind == "discard":
             op = [kind, x, rng.randrange(2)]
         elif kind in ("get", "cid", "extdel"):
             op = [kind, rng.choice(ids)]
         elif kind == "extput":
             nextval += 1
-            op = [kind, rng.choice(idpool), nextval]
+            op = [kind, rng.choice(idpool), nextval, rng.randrange(2)]
         else:
             op = [kind]
         fault = None
@@ -517,7 +602,17 @@ def gen_scenario(rng):
     if rng.random() < .4:
         ops.append([["get", a], None])
     v = 20
-    if rng.random() < .5:
+    r3 = rng.random()
+    if r3 < .3:
+        # (3) the second actor changes one part, the client refreshes through (an element of) the other part,
+        #     changes it and commits: both changes must survive, or the commit must be refused
+        pe, pc = rng.sample([0, 1], 2) if rng.random() < .8 else [rng.randrange(2)] * 2
+        ops.append([["extput", a, v, pe], None])
+        ops.append([rng.choice([["updatec", 0, pc], ["updatec", 0, pe], ["update", 0], ["get", a]]), None])
+        ops.append([["modify", 0, v + 1, pc], None])
+        ops.append([rng.choice([["commitc", 0, pc], ["commit", 0]]), None])
+        ops += [[["get", a], None], [["updatec", 0, pe], None]]
+    elif r3 < .65:
         # (1)
         ops.append([["extput", a, v], None])
         for _ in range(rng.randint(1, 4)):
@@ -552,7 +647,8 @@ def fault_matrix():
     prefix = [[["add", 0], None], [["add", 1], None], [["get", "é"], None], [["modify", 0, 5], None]]
     targets = {"add": ["add", 2], "get": ["get", "x/y z"], "commit": ["commit", 0], "update": ["update", 1],
                "discard": ["discard", 0, 0], "safe-discard": ["discard", 1, 1], "cid": ["cid", "é"],
-               "cobj": ["cobj", 0], "len": ["len"], "iter": ["iter"]}
+               "cobj": ["cobj", 0], "len": ["len"], "iter": ["iter"], "child-update": ["updatec", 0, 1],
+               "child-commit": ["commitc", 0, 0]}
     for name, op in targets.items():
         nreq = {"discard": 2, "iter": 3}.get(name, 1)
         for pos in range(nreq):
@@ -588,6 +684,8 @@ Definition oCI i := ContainsId i.
 Definition oCO x := ContainsObj (n x).
 Definition oXP i v := ExtPut i (n v).
 Definition oXD i := ExtDel i.
+Definition oUpC x := UpdateChild (n x).
+Definition oCoC x := CommitChild (n x).
 Definition nf (o : op) : op * fspec := (o, None).
 Definition fs (o : op) (k c : Z) : op * fspec := (o, Some (n k, FStatus (n c))).
 Definition fg (o : op) (k : Z) : op * fspec := (o, Some (n k, FGarbage)).
@@ -625,8 +723,21 @@ def coq_op(op):
     raise ValueError(op)
 
 
-def coq_step(op, fault):
-    o = coq_op(op)
+def coq_step(op, fault, rows, ids):
+    """rows: the SDK's observation after this call - the model is told the resulting payload token of a `modify`
+    (the changed object's) and of an `extput` (the document's), since the token stands for all parts"""
+    if op[0] == "modify":
+        r = rows[1 + len(ids) + op[1]] if len(rows) > 1 + len(ids) + op[1] and rows[0][:2] != [6, 9] else [24, 0, 0]
+        o = f"oMod {op[1]} {r[1]}"
+    elif op[0] == "extput":
+        r = rows[1 + ids.index(op[1])] if len(rows) > 1 else [20, 0, 0, 0, -1]
+        o = f"oXP {cstr(op[1])} {r[3]}"
+    elif op[0] == "updatec":
+        o = f"oUpC {op[1]}"
+    elif op[0] == "commitc":
+        o = f"oCoC {op[1]}"
+    else:
+        o = coq_op(op)
     if not fault:
         return f"nf ({o})"
     pos, ft = fault
@@ -637,19 +748,20 @@ def coq_step(op, fault):
     return f"fd ({o}) {pos}"
 
 
-def coq_parts(case):
-    pool = coq_list(f"({cstr(i)}, {v})" for i, v in case["pool"])
-    ops = coq_list(coq_step(o, f) for o, f in case["ops"])
+def coq_parts(case, trace):
+    ids = [i for i, _ in case["pool"]]
+    pool = coq_list(f"({cstr(i)}, {total(v, 0)})" for i, v in case["pool"])
+    ops = coq_list(coq_step(o, f, rows, ids) for (o, f), rows in zip(case["ops"], trace))
     return pool, ops
 
 
 def coq_case(case, trace):
-    pool, ops = coq_parts(case)
+    pool, ops = coq_parts(case, trace)
     return f"(case {pool} {ops} {coq_z(common.zhash_d(trace, 3))})"
 
 
-def model_trace(case):
-    pool, ops = coq_parts(case)
+def model_trace(case, trace):
+    pool, ops = coq_parts(case, trace)
     return common.coq_eval(TAG, PRELUDE, f"let pool := map (fun p => (fst p, n (snd p))) {pool} in "
                                            f"trace (map fst pool) (init pool) {ops}")
 
@@ -688,7 +800,7 @@ def run(chk):
             cases.append(json.load(open(os.path.join(corpus, fn))))
     fm = fault_matrix()
     cases += fm
-    chk.cov["fault_matrix"] = f"{len(fm)} directed cases: 10 operations x request position x 7 faults"
+    chk.cov["fault_matrix"] = f"{len(fm)} directed cases: 12 operations x request position x 7 faults"
     for j in range(nseq):
         cases.append(gen_scenario(rng) if j % 4 == 3 else gen_case(rng, maxlen))
     chk.cov["scripted_scenarios"] = (f"{nseq // 4} histories: non-synchronising calls between the second actor's write "
@@ -756,7 +868,7 @@ def run(chk):
                 case = cands[b[0]]
             tr, fail = run_sdk(case)
             chk.tie_broken("correspondence", {"n_disagreements": len(bad), "case": case, "sdk_trace": tr,
-                                              "model_trace": model_trace(case), "oracle_on_this_case": fail})
+                                              "model_trace": model_trace(case, tr), "oracle_on_this_case": fail})
         if bad2:
             s = qin[bad2[0]]
             chk.tie_broken("correspondence-quote", {"n": len(bad2), "input": s, "sdk": CouchDBObjectStore._transform_id(s)})
@@ -769,7 +881,7 @@ def run(chk):
         "tools/fakes/couchdb_server.py: an independent implementation of the same rules, standing in for the server in "
         "the correspondence run; urllib3 over loopback only, no network",
         "hand-written client model coq/theories/model/Couch.v (+ CouchObs.v) tied to couchdb.py / base.py by this "
-        "correspondence run; payloads abstracted to a token (the id_short), revisions to their generation",
+        "correspondence run; payloads abstracted to one token standing for all parts of the object (two nested Properties of a Submodel, id_short/category of the other kinds), revisions to their generation",
         "the harness keeps every object alive, so the WeakValueDictionary object cache behaves as a dict",
         "tools/c16.py (generator, SDK driver, second actor, canonicaliser, oracle), tools/common.py",
     ]
@@ -787,7 +899,7 @@ def run(chk):
                                   "obeys CouchDB's documented document-API rules; the model client is compared with the real "
                                   "client on every run against a loopback fake of that API with fault injection. No real "
                                   "CouchDB, no network.",
-                      rule="corpus, the fault matrix (10 operations x request position x 7 faults), then seeded random "
+                      rule="corpus, the fault matrix (12 operations x request position x 7 faults), then seeded random "
                            "histories of 3-12 (quick) / 3-16 (thorough) calls over 1-3 identifiers drawn from a pool with "
                            "'/', '?', '#', '%', spaces, tabs, non-ASCII, '.', '..', 1-5 local objects (several per id), a "
                            "second actor writing/deleting behind the SDK's back, and a fault on 0/15/40 % of the calls; "
